@@ -13,5 +13,7 @@ CONSTANTS
   FreshModule = TRUE
   Words = {1, 2}
   FullStropKey = TRUE
+  Docs = {0, 1}
+  PureFilters = TRUE
 INVARIANT Emit
 CHECK_DEADLOCK FALSE
